@@ -1,18 +1,130 @@
 (* Props/C07.v — property C07: serde serialization never loses data: it round-trips or returns an
    error.  Statements only; proofs in Proofs/SerdeRT*.v.
-   Level: the TOML value tree (Spec/SerdeData.v `tomlval`).  Printing a tree as text and parsing
-   it back is C03/C06 (documents), C10 (strings, keys), C11 (numbers), C12 (date-times). *)
-From TV Require Import Base.Prelude Spec.SerdeData Model.Ser Model.De Proofs.SerdeRTBase Proofs.SerdeRT.
 
-(* toml_edit's ValueSerializer / ValueDeserializer (the core of all five text / document routes):
-   whatever is serialized without an error reads back as an equal value *)
+   Level: the TOML value tree (Spec/SerdeData.v `tomlval`).  Printing a tree as text and parsing
+   it back is C03/C06 (documents), C10 (strings, keys), C11 (numbers), C12 (date-times).
+   Universe: Spec/SerdeData.v `ty` / `sval` / `has_type` (structs, maps, sequences, tuples,
+   newtypes, tuple structs, options, the four kinds of enum variant, every integer width, f32/f64,
+   bool, char, strings, the three date-time types, unit and unit structs as unsupported shapes).
+   Oracle (trusted, checked on every run by the harness command `fidelity`): the calls
+   `#[derive(Serialize, Deserialize)]` makes for each shape, as written into Model/Ser.v, De.v. *)
+From TV Require Import Base.Prelude Model.Datetime Model.SerNum Spec.SerdeData Model.Ser Model.De
+  Proofs.SerdeRTBase Proofs.SerdeRT Proofs.SerdeRTErr Proofs.SerdeRTRoot Extract.Show.
+Require Import String.
+
+(* ---- toml_edit's ValueSerializer / ValueDeserializer: the core of all five text / document routes ---- *)
+
+(* whatever is serialized without an error reads back as an equal value *)
 Theorem C07_roundtrip_value : forall ty v out,
   has_type v ty -> ser_value ty v = Ok out -> exists v', de_value ty out = Ok v' /\ sval_eq v v'.
 Proof. intros ty v out. exact (roundtrip_value ty v out). Qed.
 Print Assumptions C07_roundtrip_value.
 
-(* whatever to_document / to_string / to_string_pretty of toml_edit accept is a table at the root *)
+(* an error names a documented unsupported shape that the value contains *)
+Theorem C07_errors_documented : forall ty v e,
+  has_type v ty -> ser_value ty v = Err e -> unsupported CElem ty v e.
+Proof. intros ty v e. exact (errors_documented ty v e). Qed.
+Print Assumptions C07_errors_documented.
+
+(* without such a shape serialization succeeds *)
+Theorem C07_supported : forall ty v, has_type v ty -> supported ty v -> exists out, ser_value ty v = Ok out.
+Proof. exact supported_ok. Qed.
+Print Assumptions C07_supported.
+
+(* ---- document roots: toml_edit::ser::{to_string, to_string_pretty, to_document} ---- *)
 Theorem C07_edit_root_is_table : forall t v out,
   ser_edit_root t v = Ok out -> exists es, out = VTab es /\ ser_value t v = Ok out.
 Proof. exact edit_root_is_table. Qed.
 Print Assumptions C07_edit_root_is_table.
+
+Theorem C07_edit_roundtrip : forall ty v out,
+  has_type v ty -> ser_edit_root ty v = Ok out -> exists v', de_value ty out = Ok v' /\ sval_eq v v'.
+Proof. exact edit_root_roundtrip. Qed.
+Print Assumptions C07_edit_roundtrip.
+
+Theorem C07_edit_errors : forall ty v e, has_type v ty -> ser_edit_root ty v = Err e ->
+  unsupported CElem ty v e \/ (e = EUnsupportedType None /\ table_shaped ty v = false).
+Proof. exact edit_root_errors. Qed.
+Print Assumptions C07_edit_errors.
+
+Theorem C07_edit_supported : forall ty v, has_type v ty -> supported ty v -> table_shaped ty v = true ->
+  exists out, ser_edit_root ty v = Ok out.
+Proof. exact edit_root_supported. Qed.
+Print Assumptions C07_edit_supported.
+
+(* ---- document roots: toml::{to_string, to_string_pretty} ---- *)
+Theorem C07_toml_roundtrip : forall ty v out,
+  has_type v ty -> ser_toml_root ty v = Ok out -> exists v', de_value ty out = Ok v' /\ sval_eq v v'.
+Proof. exact toml_root_roundtrip. Qed.
+Print Assumptions C07_toml_roundtrip.
+
+Theorem C07_toml_errors : forall ty v e, has_type v ty -> ser_toml_root ty v = Err e ->
+  unsupported CElem ty v e
+  \/ (e = EUnsupportedType None /\ toml_root_shaped ty v = false)
+  \/ (exists n, e = EUnsupportedType (Some n) /\ root_struct_variant ty v n).
+Proof. exact toml_root_errors. Qed.
+Print Assumptions C07_toml_errors.
+
+Theorem C07_toml_supported : forall ty v, has_type v ty -> supported ty v -> toml_root_shaped ty v = true ->
+  exists out, ser_toml_root ty v = Ok out.
+Proof. exact toml_root_supported. Qed.
+Print Assumptions C07_toml_supported.
+
+(* ---- non-vacuity ---- *)
+(* struct Cfg { m: BTreeMap<String, Vec<En>>, o: Option<Point>, t: En, d: Datetime, w: Wrap(u8), c: char, x: f32 }
+   enum En { U, N(i64), T(bool, String), S { a: Option<i32>, b: u64 } }     struct Point { x: i32, y: i32 } *)
+Definition ex_en : ty :=
+  TEnum (str "En") [(str "U", VUnit); (str "N", VNewtype (TInt TI64)); (str "T", VTuple [TBool; TStr]);
+                    (str "S", VStruct [(str "a", TOpt (TInt TI32)); (str "b", TInt TU64)])].
+Definition ex_point : ty := TStruct (str "Point") [(str "x", TInt TI32); (str "y", TInt TI32)].
+Definition ex_ty : ty :=
+  TStruct (str "Cfg") [(str "m", TMap TStr (TSeq ex_en)); (str "o", TOpt ex_point); (str "n", TOpt ex_point);
+                       (str "t", ex_en); (str "d", TDatetime KDatetime); (str "w", TNewtype (str "Wrap") (TInt TU8));
+                       (str "c", TChar); (str "x", TFloat F32)].
+Definition ex_dt : datetime := mkDT (Some (mkDate 1979 5 27)) (Some (mkTime 7 32 0 500000000)) (Some (OffCustom (-420))).
+Definition ex_val : sval :=
+  SRec [SMap [(SStr (str "k1"), SSeq [SVariant 0 SUnit; SVariant 1 (SInt (-5)); SVariant 3 (SRec [SNone; SInt 7])]);
+              (SStr (str "k2"), SSeq [])];
+        SSome (SRec [SInt 1; SInt (-2)]); SNone;
+        SVariant 2 (SSeq [SBool true; SStr (str "x y")]); SDt ex_dt; SNewtype (SInt 255);
+        SChar 233; SF32 1036831949].
+
+Example C07_ex_typed : has_type ex_val ex_ty.
+Proof. vm_compute. reflexivity. Qed.
+
+Example C07_ex_ser :
+  ser_edit_root ex_ty ex_val =
+  Ok (VTab [(str "m", VTab [(str "k1", VArr [VStr (str "U"); VTab [(str "N", VInt (-5))];
+                                            VTab [(str "S", VTab [(str "b", VInt 7)])]]);
+                            (str "k2", VArr [])]);
+            (str "o", VTab [(str "x", VInt 1); (str "y", VInt (-2))]);
+            (str "t", VTab [(str "T", VArr [VBool true; VStr (str "x y")])]);
+            (str "d", VDatetime ex_dt); (str "w", VInt 255); (str "c", VStr [xc3; xa9]);
+            (str "x", VFloat 4591870180174331904)]).
+Proof. vm_compute. reflexivity. Qed.
+
+Example C07_ex_roundtrip :
+  match ser_toml_root ex_ty ex_val with Ok out => de_value ex_ty out | Err e => Err e end = Ok ex_val.
+Proof. vm_compute. reflexivity. Qed.
+
+(* the documented unsupported shapes do occur, and are refused: None in a sequence, a unit, a
+   non-string key, a u64 beyond i64, a non-table root, a struct variant at the root of toml::to_string *)
+Example C07_ex_none_in_seq :
+  ser_value (TSeq (TOpt TBool)) (SSeq [SSome (SBool true); SNone]) = Err EUnsupportedNone
+  /\ unsupported CElem (TSeq (TOpt TBool)) (SSeq [SSome (SBool true); SNone]) EUnsupportedNone.
+Proof. split; [vm_compute; reflexivity|]. eapply u_seq; [right; left; reflexivity|apply u_none]. Qed.
+
+Example C07_ex_int_key :
+  ser_value (TMap (TInt TI32) TBool) (SMap [(SInt 1, SBool true)]) = Err EKeyNotString.
+Proof. vm_compute. reflexivity. Qed.
+
+Example C07_ex_u64 :
+  ser_value (TInt TU64) (SInt 9223372036854775808) = Err (EOutOfRange (Some S_u64))
+  /\ ser_value (TInt TU64) (SInt 9223372036854775807) = Ok (VInt 9223372036854775807).
+Proof. split; vm_compute; reflexivity. Qed.
+
+Example C07_ex_root :
+  ser_edit_root (TSeq TBool) (SSeq []) = Err (EUnsupportedType None)
+  /\ ser_toml_root ex_en (SVariant 3 (SRec [SNone; SInt 7])) = Err (EUnsupportedType (Some (str "En")))
+  /\ ser_edit_root ex_en (SVariant 3 (SRec [SNone; SInt 7])) = Ok (VTab [(str "S", VTab [(str "b", VInt 7)])]).
+Proof. repeat split; vm_compute; reflexivity. Qed.
